@@ -86,10 +86,10 @@ while len(cases) < N:
     stats['fixed_points'] += out == p
     cases.append('(%s, %s, %s, %s, %s)' % (q(p), c, q(out), 'true' if out == p else 'false', c_out))
     if len(samples) < 3: samples.append({'source': p, 'implementation_output': out})
-HDR = ('From Coq Require Import List Ascii String Bool. Import ListNotations.\nFrom F0 Require Import F0s Specs Canon Canonize P18 P20.\nOpen Scope string_scope.\nOpen Scope bool_scope.\n'
+HDR = ('From Coq Require Import List Ascii String Bool. Import ListNotations.\nFrom F0 Require Import F0s Specs Canon Canonize P18 P20.\nFrom Dyn Require Import FmtGen FmtGenProps.\nOpen Scope string_scope.\nOpen Scope bool_scope.\n'
        'Definition eqs (a b : str) : bool := if list_eq_dec ascii_dec a b then true else false.\n')
 OK = ("Definition ok (c : str * cfile * str * bool * option cfile) : bool :=\n  let '(src, f, expected, fixed, reparsed) := c in\n"
-      "  eqs (ftext f) src && eqs (roundtrip f) expected &&\n"
+      "  eqs (ftext f) src && eqs (roundtrip f) expected && afile_lif (from_cst_file f) &&\n"
       "  (negb (wf_fileb f) || (eqs (spec_file f) expected && eqs (ftext (canon_file f)) expected && canonical_file (canon_file f)\n"
       "                         && Bool.eqb (canonical_file f) fixed\n"
       "                         && match reparsed with Some f' => cfile_eqb (canon_file f) f' && eqs (ftext f') expected | None => false end)).\n")
